@@ -14,6 +14,7 @@
 """Adapter management
 """
 import itertools
+import threading
 import weakref
 
 from zope.interface import Interface
@@ -770,6 +771,19 @@ class VerifyingBase(LookupBaseFallback):  # noqa F821
         )
 
 
+# Serializes the check-subscribe-remember steps of
+# ``AdapterLookupBase._subscribe`` and the forget-unsubscribe steps of
+# ``AdapterLookupBase.changed``. The count a specification keeps for a
+# dependent is updated by reading and then writing it, so two threads
+# doing that for the same lookup object at once lose an update; after
+# that the lookup object either is remembered as subscribed while it
+# isn't (changes of the specification no longer reach it) or
+# ``changed`` fails with a KeyError before the caches are dropped.
+# Only uncached lookups and invalidations get here. Reentrant, because a
+# lookup made by a destructor that runs inside ``changed`` subscribes.
+_subscription_lock = threading.RLock()
+
+
 class AdapterLookupBase:
 
     def __init__(self, registry):
@@ -787,14 +801,15 @@ class AdapterLookupBase:
         # out one at a time because such a lookup adds to this very
         # dictionary, and because two threads can be in here at once.
         required = self._required
-        while required:
-            try:
-                r, _ = required.popitem()
-            except KeyError:
-                break
-            r = r()
-            if r is not None:
-                r.unsubscribe(self)
+        with _subscription_lock:
+            while required:
+                try:
+                    r, _ = required.popitem()
+                except KeyError:
+                    break
+                r = r()
+                if r is not None:
+                    r.unsubscribe(self)
         super().changed(None)
 
     # Extendors
@@ -846,11 +861,12 @@ class AdapterLookupBase:
 
     def _subscribe(self, *required):
         _refs = self._required
-        for r in required:
-            ref = r.weakref()
-            if ref not in _refs:
-                r.subscribe(self)
-                _refs[ref] = 1
+        with _subscription_lock:
+            for r in required:
+                ref = r.weakref()
+                if ref not in _refs:
+                    r.subscribe(self)
+                    _refs[ref] = 1
 
     def _uncached_lookup(self, required, provided, name=''):
         required = tuple(required)
